@@ -84,6 +84,12 @@ h("VerifValidateFilesDirs", VA, VF, "<=1 output file, <=1 output directory (nil 
 h("VerifValidateSymlinks", VA, VF, "<=1 element in each of the three symlink lists; paths/targets arbitrary ASCII strings", "as above for symlinks", native=True, strings=True)
 h("VerifValidateNil", VA, VF, "-", "nil is rejected", native=True)
 
+SV = "./server"
+AU = ["zz_verif_auth.go"]
+h("VerifGrpcBasicAuth", SV, AU, "FullMethod any ASCII string; metadata: none / no auth keys / :authority with arbitrary user and password / Basic header / malformed header; user known or not; password check arbitrary; unary and stream; allow_unauthenticated_reads on/off", "basic-auth interceptors invoke the handler without valid credentials only for the health check or (reads open) the six read-only methods", strings=True)
+h("VerifGrpcBasicAuthAccepts", SV, AU, "any method, any non-empty user/password", "valid credentials are accepted", strings=True)
+h("VerifGrpcMTLS", SV, AU, "FullMethod any ASCII string; peer: none / not TLS / TLS without verified chain / empty chain / verified chain; unary and stream", "mTLS interceptors", strings=True)
+
 # property -> (quick harnesses, additional thorough harnesses, assumptions, outside)
 CODEC = "zstd codec replaced by a contract stub: frames self-delimiting, Decode(Encode(x)) = x, anything else fails"
 HASH = "sha256 replaced by a provenance model: collision-free, digest equals the declared hash iff the hashed bytes are exactly the declared blob"
@@ -103,6 +109,7 @@ P = {
  "C10": (["VerifFindMissing3", "VerifFindMissingProxy1", "VerifFindMissingBatch", "VerifFilterNonNil", "VerifContains"], ["VerifFindMissing4", "VerifFindMissingProxy2", "VerifFindMissingBatch2"], ["the backend is an arbitrary per-hash verdict"], ["hundreds of digests with all states symbolic", "512 real workers", "more than 2 preemptive context switches"]),
  "C11": (["VerifValidateFilesDirs", "VerifValidateSymlinks", "VerifValidateNil"], [], ["strings are ASCII (Go byte strings and SMT code-point strings agree there)"], ["field-by-field fidelity of proto.Marshal/Unmarshal and protojson", "non-ASCII strings"]),
  "C12": (["VerifProxyGetAC", "VerifProxyGetCasRaw", "VerifProxyGetCasZstd", "VerifPutRawProxy"], ["VerifProxyGetCasZstdZ", "VerifPutCasZstdProxy", "VerifPutCasRawProxy"], [FSM, CODEC, HASH, "the backend is an arbitrary cache.Proxy stub"], ["minio/azure/gcs SDK calls", "real HTTP body semantics"]),
+ "C13": (["VerifGrpcBasicAuth", "VerifGrpcBasicAuthAccepts", "VerifGrpcMTLS"], [], ["auth.CheckSecret is an arbitrary predicate", "strings are ASCII"], ["htpasswd hash checking, TLS handshake and certificate verification, LDAP", "whether grpc-go calls the interceptors for every method"]),
  "C14": (["VerifReadArbitrary2", "VerifGetCasZstd", "VerifGetSpecial"], ["VerifReadArbitrary3", "VerifGetCasZstdAsZstd", "VerifGetCasRawAsZstd", "VerifProxyGetCasZstd"], [FSM, CODEC], ["panics inside stubbed libraries", "resource exhaustion by volume"]),
  "C17": (["VerifLRUReserve3", "VerifLRURemove", "VerifLRUAdd3", "VerifPutAC", "VerifProxyGetAC"], ["VerifLRUReserve4", "VerifPutCasZstd", "VerifPutCasRaw", "VerifProxyGetCasRaw"], [FSM], ["real unlink latency"]),
  "C18": (["VerifPutAC", "VerifPutCasRaw", "VerifContains", "VerifProxyGetAC"], ["VerifPutCasZstd", "VerifProxyGetCasRaw", "VerifProxyGetCasZstd"], [FSM, HASH], ["transport-level message size limits"]),
